@@ -354,6 +354,120 @@ func runC04(c *Ctx) {
 		r.MissingInstance("C04.6", "<session indexes>", fmt.Sprintf("only %d indexes over a Session field found", nIdx))
 	}
 
+	// ---- C04.7 an index the state store ranges over (Get + iteration: many rows per key) is not
+	// declared Unique. go-memdb keeps ONE row per key of a unique index: with Unique set on the
+	// kvs "session" index a session's second lock replaces the first in the index, and ending the
+	// session releases only the last key it locked.
+	type idxDecl struct {
+		name    string
+		unique  bool
+		pos     token.Pos
+		fn      *ssa.Function
+		hasName bool
+	}
+	decls := map[*ssa.Alloc]*idxDecl{}
+	for _, f := range p.SrcFuncs(statePkg) {
+		for _, b := range f.Blocks {
+			for _, in := range b.Instrs {
+				st, ok := in.(*ssa.Store)
+				if !ok {
+					continue
+				}
+				fa, ok := st.Addr.(*ssa.FieldAddr)
+				if !ok {
+					continue
+				}
+				nt := core.NamedOf(fa.X.Type())
+				if nt == nil || nt.Obj().Name() != "IndexSchema" {
+					continue
+				}
+				al, ok := fa.X.(*ssa.Alloc)
+				if !ok {
+					continue
+				}
+				d := decls[al]
+				if d == nil {
+					d = &idxDecl{fn: f, pos: st.Pos()}
+					decls[al] = d
+				}
+				switch core.FieldObj(fa).Name() {
+				case "Name":
+					if v, ok := core.ConstString(st.Val); ok {
+						d.name, d.hasName = v, true
+					}
+				case "Unique":
+					if v, ok := core.ConstBool(st.Val); ok {
+						d.unique = v
+					}
+				}
+			}
+		}
+	}
+	// which schema function declares which table: the Name store into a TableSchema in the same function
+	tableOfFn := map[*ssa.Function]string{}
+	for _, f := range p.SrcFuncs(statePkg) {
+		for _, b := range f.Blocks {
+			for _, in := range b.Instrs {
+				if st, ok := in.(*ssa.Store); ok {
+					if fa, ok := st.Addr.(*ssa.FieldAddr); ok && core.FieldObj(fa).Name() == "Name" {
+						if nt := core.NamedOf(fa.X.Type()); nt != nil && nt.Obj().Name() == "TableSchema" {
+							if v, ok := core.ConstString(st.Val); ok {
+								tableOfFn[f] = v
+							}
+						}
+					}
+				}
+			}
+		}
+	}
+	ranged := map[string]token.Pos{} // table/index → a Get whose iterator is walked in a loop
+	for _, f := range p.SrcFuncs(statePkg) {
+		for _, b := range f.Blocks {
+			for _, in := range b.Instrs {
+				op := core.AsMemdbOp(in)
+				if op == nil || op.Op != "Get" || !op.TableKnown || !op.IndexKnown || op.Index == "id" || strings.HasSuffix(op.Index, "_prefix") {
+					continue
+				}
+				v, ok := in.(ssa.Value)
+				if !ok {
+					continue
+				}
+				walked := false
+				core.ForwardUses(v, func(u ssa.Instruction, _ ssa.Value) {
+					if ci, ok := u.(ssa.CallInstruction); ok && ci.Common().IsInvoke() && ci.Common().Method.Name() == "Next" {
+						if _, inLoop := core.InnermostLoop(u.Block()); inLoop {
+							walked = true
+						}
+					}
+				})
+				if walked {
+					ranged[op.Table+"/"+op.Index] = in.Pos()
+				}
+			}
+		}
+	}
+	nUniq := 0
+	for _, d := range decls {
+		tbl := tableOfFn[d.fn]
+		if !d.hasName || tbl == "" {
+			continue
+		}
+		key := tbl + "/" + d.name
+		at, isRanged := ranged[key]
+		if !isRanged {
+			continue
+		}
+		nUniq++
+		construct := "schema:" + key
+		if d.unique {
+			r.Violate("C04.7", construct, p.Pos(d.pos), "index "+d.name+" of table "+tbl+" is declared Unique but the store walks all rows of one key through it (at "+p.Pos(at)+"): go-memdb keeps a single row per key of a unique index, so every row but the last written is invisible to that walk — for the kvs session index, ending a session releases only the last key it locked")
+		} else {
+			r.Hold("C04.7", construct, p.Pos(d.pos), "non-unique index, walked for all rows of a key")
+		}
+	}
+	r.Floor("C04.7", 10)
+	_ = nUniq
+
 	// ---- C04.2 cascades
 	isInvalidatorCall := func(in ssa.Instruction) bool {
 		ci, ok := in.(ssa.CallInstruction)
